@@ -4,6 +4,7 @@ import JediModel.Lemmas.WalkPath
 import JediModel.Lemmas.WalkTree
 import JediModel.Lemmas.WalkNodup
 import JediModel.Lemmas.Search
+import JediModel.Lemmas.Prefilter
 /-! # C19 — Project search finds every definition and honours ignore rules
 
 Property theorems only.  `srcCfg` is the configuration the translator read from
@@ -583,4 +584,78 @@ example : skipDuplicates [⟨"a".toList, "statement".toList, some 1, none, 1⟩,
 theorem skip_duplicates_sublist (l : List Nm) : (skipDuplicates l).Sublist l :=
   skipLoop_sublist [] [] l
 
+/-! ## the regex pre-filter of step 2 is a necessary condition -/
+section prefilter
+open JediModel.Prefilter
+
+/-- the pre-filter as the translator found it in `search_in_file_ios` / `_check_fs`: a pattern of
+the known family (`\b` name `\b`-unless-complete), a str pattern without re.ASCII, and
+`regex.search` runs on the text `python_bytes_to_unicode` returned, not on the raw bytes -/
+theorem prefilter_src_shape :
+    (patternOf JediModel.Gen.C19.prefilterPattern).isSome = true ∧
+    JediModel.Gen.C19.checkFsSteps.contains "search" = true ∧
+    searchSeesText JediModel.Gen.C19.checkFsSteps = true ∧
+    JediModel.Gen.C19.prefilterPatternIsBytes = false ∧
+    JediModel.Gen.C19.prefilterFlags.contains "ASCII" = false := by
+  decide
+
+/-- **the pre-filter loses no file that spells the name as a whole word.**  For the step order, the
+pattern kind and the flags of the source (`Gen.C19`), any pattern `p` of the family, any unicode
+`\w` predicate `uw`, any name whose first (and, for an exact search, last) character is `\w`:
+if the decoded text of the file is `pre ++ name ++ post` with no `\w` character directly before
+and (exact search) none directly behind, `_check_fs` does not filter the file out - whatever
+bytes `data` the text was decoded from, so in every encoding `python_bytes_to_unicode` understands. -/
+theorem prefilter_complete (uw : Char → Bool) (enc : List Char → List Nat) (p : Pattern) (complete : Bool)
+    (name pre post : List Char) (data : List Nat)
+    (hfirst : headWord uw name.head? = true)
+    (hlast : complete = false → headWord uw name.getLast? = true)
+    (hpre : headWord uw pre.getLast? = false)
+    (hpost : complete = false → headWord uw post.head? = false) :
+    passes uw enc JediModel.Gen.C19.checkFsSteps p JediModel.Gen.C19.prefilterPatternIsBytes
+      (JediModel.Gen.C19.prefilterFlags.contains "ASCII") complete name data (pre ++ (name ++ post)) = some true := by
+  obtain ⟨_, hs, hsee, hb, hf⟩ := prefilter_src_shape
+  unfold passes
+  simp only [hs, hsee, hb, hf, Bool.not_true, Bool.false_eq_true, ↓reduceIte]
+  congr 1
+  apply search_split
+  · intro _
+    rw [lastOr_none]
+    simp [boundary, hpre, hfirst]
+  · intro ht
+    have hc : complete = false := by
+      unfold trailOn at ht
+      cases complete <;> simp_all
+    simp [boundary, hlast hc, hpost hc]
+
+/-- the hypotheses are satisfiable: `étoile_count` between a blank and a parenthesis -/
+example : passes latinWord utf8 JediModel.Gen.C19.checkFsSteps ⟨true, false, true, false⟩
+    JediModel.Gen.C19.prefilterPatternIsBytes (JediModel.Gen.C19.prefilterFlags.contains "ASCII") false
+    ['é', 't', 'o', 'i', 'l', 'e'] (utf8 ['d', 'e', 'f', ' ', 'é', 't', 'o', 'i', 'l', 'e', '(', ')'])
+    (['d', 'e', 'f', ' '] ++ (['é', 't', 'o', 'i', 'l', 'e'] ++ ['(', ')'])) = some true := by
+  decide
+
+/-- kernel-checked witness that the order matters: when `regex.search` runs on the raw bytes with the
+UTF-8 encoded pattern (`search` before `decode`), `\b` is ASCII-only, there is no boundary between
+the blank and the first byte of `é`, and the file `def étoile()` is filtered out although it
+defines the name; an ASCII name in the same file still passes -/
+theorem prefilter_on_bytes_loses_definitions :
+    passes latinWord utf8 ["read", "search", "decode", "wrap", "load", "compiled", "return"] ⟨true, false, true, false⟩
+      true false false ['é', 't', 'o', 'i', 'l', 'e']
+      (utf8 ['d', 'e', 'f', ' ', 'é', 't', 'o', 'i', 'l', 'e', '(', ')'])
+      ['d', 'e', 'f', ' ', 'é', 't', 'o', 'i', 'l', 'e', '(', ')'] = some false ∧
+    passes latinWord utf8 ["read", "search", "decode", "wrap", "load", "compiled", "return"] ⟨true, false, true, false⟩
+      true false false ['d', 'e', 'f']
+      (utf8 ['d', 'e', 'f', ' ', 'é', 't', 'o', 'i', 'l', 'e', '(', ')'])
+      ['d', 'e', 'f', ' ', 'é', 't', 'o', 'i', 'l', 'e', '(', ')'] = some true := by
+  decide
+
+/-- the same loss with a str pattern compiled with re.ASCII, and for a name that ENDS with such a letter -/
+theorem prefilter_ascii_flag_loses_definitions :
+    passes latinWord utf8 ["read", "decode", "search", "wrap", "load", "compiled", "return"] ⟨true, false, true, false⟩
+      false true false ['C', 'a', 'f', 'é']
+      (utf8 ['C', 'a', 'f', 'é', ' ', '=', ' ', '1'])
+      ['C', 'a', 'f', 'é', ' ', '=', ' ', '1'] = some false := by
+  decide
+
+end prefilter
 end JediModel.Props.C19
